@@ -96,6 +96,8 @@ func ruleJoinState(ctx *Ctx, rule string) {
 	}
 	// (c) clientsRefs transfer
 	moved, zeroed := false, false
+	var movedBlk, zeroedBlk, nextBlk *ssa.BasicBlock
+	nextF := mustField(ctx, rule, "", "Promise", "next")
 	for _, b := range frameBlocks(f) {
 		for _, in := range b.Instrs {
 			st, ok := in.(*ssa.Store)
@@ -103,12 +105,16 @@ func ruleJoinState(ctx *Ctx, rule string) {
 				continue
 			}
 			fa, ok := st.Addr.(*ssa.FieldAddr)
+			if ok && nextF != nil && ssaq.FieldVar(fa) == nextF && ssaq.AccessPath(fa.X) == "p" && b.Parent() == f {
+				nextBlk = b
+			}
 			if !ok || ssaq.FieldVar(fa) != cr {
 				continue
 			}
 			base := ssaq.AccessPath(fa.X)
 			if k, ok := ssaq.ConstInt(st.Val); ok && k == 0 && base == "p" {
 				zeroed = true
+				zeroedBlk = b
 			}
 			if bo, ok := st.Val.(*ssa.BinOp); ok && bo.Op == token.ADD {
 				for _, pair := range [][2]ssa.Value{{bo.X, bo.Y}, {bo.Y, bo.X}} {
@@ -116,13 +122,41 @@ func ruleJoinState(ctx *Ctx, rule string) {
 					of, ob := ssaq.LoadedField(pair[1])
 					if lf == cr && of == cr && lb != nil && ob != nil && ssaq.AccessPath(lb) == base && ssaq.AccessPath(ob) == "p" && base != "p" {
 						moved = true
+						movedBlk = b
 					}
 				}
 			}
 		}
 	}
 	pos := q.Pos(f.Pos())
-	if moved && zeroed {
+	// the hand-over is unconditional: once p.next is set, every return is
+	// dominated by both stores (a joined promise without clients of its own still
+	// owns a share of the parent's)
+	conditional := ""
+	if moved && zeroed && nextBlk != nil && movedBlk.Parent() == f && zeroedBlk.Parent() == f {
+		seen := map[*ssa.BasicBlock]bool{nextBlk: true}
+		work := []*ssa.BasicBlock{nextBlk}
+		for len(work) > 0 {
+			b := work[len(work)-1]
+			work = work[:len(work)-1]
+			if len(b.Instrs) > 0 {
+				if _, isRet := b.Instrs[len(b.Instrs)-1].(*ssa.Return); isRet {
+					if !(movedBlk == b || movedBlk.Dominates(b)) || !(zeroedBlk == b || zeroedBlk.Dominates(b)) {
+						conditional = q.Pos(ssaq.InstrPos(b.Instrs[len(b.Instrs)-1]))
+					}
+				}
+			}
+			for _, s := range b.Succs {
+				if !seen[s] {
+					seen[s] = true
+					work = append(work, s)
+				}
+			}
+		}
+	}
+	if conditional != "" {
+		r.Violation(rule, "capnp.(*Promise).Join | clientsRefs transferred to the parent", pos, "after p.next is set, the return at "+conditional+" can be reached without parent.clientsRefs += p.clientsRefs and p.clientsRefs = 0: the hand-over of p's claim on the pipelined clients is conditional, so a joined promise without clients of its own releases the parent's clients early")
+	} else if moved && zeroed {
 		r.Ok(rule, "capnp.(*Promise).Join | clientsRefs transferred to the parent", pos, "parent.clientsRefs += p.clientsRefs and p.clientsRefs = 0")
 	} else {
 		r.Violation(rule, "capnp.(*Promise).Join | clientsRefs transferred to the parent", pos, fmt.Sprintf("Join does not move p's whole clientsRefs count to the promise it joins (added: %v, zeroed: %v): proxy clients are released while a joined promise still owns them, or never", moved, zeroed))
